@@ -49,6 +49,7 @@ import (
 	"go/constant"
 	"go/token"
 	"go/types"
+	"os"
 	"sort"
 	"strings"
 
@@ -139,9 +140,16 @@ type Atom struct {
 	Via   string // decoder: helper the bytes pass through before being stored (FirstLevelDecode)
 
 	Callee *ssa.Function // nested: the codec function called
-	Over   string        // repeat: the section ranged over / appended to
-	Count  string        // repeat (decoder): what bounds the loop
-	Lit    []string      // repeat over a slice literal of sections: its elements
+	// Definite (unknown): the extraction was complete and what it found is a
+	// defect in itself (two writes over the same bytes of the output buffer),
+	// as opposed to a shape that could not be read.
+	Definite bool
+	// Unread (encoder, nested): the callee is an in-module producer that is not
+	// a codec unit and whose own layout could not be read — why.
+	Unread string
+	Over   string   // repeat: the section ranged over / appended to
+	Count  string   // repeat (decoder): what bounds the loop
+	Lit    []string // repeat over a slice literal of sections: its elements
 	Body   []Atom
 
 	Val    ssa.Value // encoder: the value emitted; decoder: the value read
@@ -283,6 +291,21 @@ type X struct {
 	// cells: buffer variables captured by closures (cell.go)
 	cells map[ssa.Value]*cellInfo
 
+	// view cells (view.go)
+	viewFields map[viewField]bool // on the outermost extractor
+	vs         *viewState
+	vsDone     bool
+	vsEvents   []ssa.Instruction
+	viewBad    string
+	windows    map[ssa.Value]*viewWindow
+	// unread: memo of nested()'s readability diagnosis per producer
+	unread map[*ssa.Function]*string
+	// handled: calls whose effect on the input buffer the decoder extraction has
+	// accounted for (analysed at the call site, or read as a codec unit)
+	handled map[ssa.Instruction]bool
+	// unrolling: loops whose per-iteration writes are being collected
+	unrolling map[*Loop]bool
+
 	idx      map[ssa.Instruction]int
 	loops    []*Loop
 	lenCanon map[ssa.Value]ssa.Value
@@ -296,7 +319,14 @@ func New(w *prove.World, fn *ssa.Function) *X {
 	return x
 }
 
+var dumped = map[*ssa.Function]bool{}
+
 func newX(w *prove.World, fn *ssa.Function) *X {
+	// debugging aid: WIRE_DUMP=<function name> prints the SSA the extractor reads
+	if d := os.Getenv("WIRE_DUMP"); d != "" && d == fn.Name() && !dumped[fn] {
+		dumped[fn] = true
+		fn.WriteTo(os.Stderr)
+	}
 	x := &X{W: w, Fn: fn, FI: w.Info(fn), Roots: map[ssa.Value]string{}, Lits: map[ssa.Value][]string{},
 		Names: map[ssa.Value]string{}, idx: map[ssa.Instruction]int{}, lenCanon: map[ssa.Value]ssa.Value{}, rootBusy: map[ssa.Value]bool{},
 		env: map[ssa.Value]ssa.Value{}, symOf: map[ssa.Value]Sym{}}
@@ -307,6 +337,14 @@ func newX(w *prove.World, fn *ssa.Function) *X {
 	}
 	x.findLoops()
 	return x
+}
+
+func (x *X) nestDepth() int {
+	n := 0
+	for y := x; y != nil; y = y.Parent {
+		n++
+	}
+	return n
 }
 
 // res follows the unrolling environment.
@@ -448,11 +486,16 @@ func errorExit(b *ssa.BasicBlock) bool {
 				return false
 			}
 			r := last.Results[len(last.Results)-1]
-			if types.TypeString(r.Type(), nil) != "error" {
-				return false
+			switch types.TypeString(r.Type(), nil) {
+			case "error":
+				k, isK := r.(*ssa.Const)
+				return !(isK && k.Value == nil)
+			case "bool":
+				// (T, bool) helpers report failure with the constant false
+				k, isK := r.(*ssa.Const)
+				return isK && k.Value != nil && len(last.Results) > 1 && !constant.BoolVal(k.Value)
 			}
-			k, isK := r.(*ssa.Const)
-			return !(isK && k.Value == nil)
+			return false
 		case *ssa.Jump:
 			b = b.Succs[0]
 			continue
@@ -717,15 +760,8 @@ func (x *X) Sym(v ssa.Value) Sym {
 		}
 	case *ssa.Call:
 		if b, ok := t.Call.Value.(*ssa.Builtin); ok && b.Name() == "len" {
-			root, off, okr := x.bufRoot(t.Call.Args[0])
-			if okr {
-				if k, isK := off.Const(); isK && k == 0 {
-					if c, ok := x.lenCanon[root]; ok {
-						return SymT(c)
-					}
-					x.lenCanon[root] = t
-					return SymT(t)
-				}
+			if s, ok := x.seqLen(t.Call.Args[0], t, 0); ok {
+				return s
 			}
 		}
 		// n := copy(buf[a:], src) with room for all of src: n = len(src)
@@ -739,6 +775,106 @@ func (x *X) Sym(v ssa.Value) Sym {
 		}
 	}
 	return SymT(v)
+}
+
+// seqLen: len(v) as a linear form. The length of a buffer is one canonical
+// term per buffer (so that len(data) written twice is the same term); the
+// length of a view is derived from it: len(b[lo:]) = len(b) - lo,
+// len(b[lo:hi]) = hi - lo, len(make([]byte, n)) = n. `self` is the len call
+// being evaluated (it becomes the canonical term of a buffer that has none).
+func (x *X) seqLen(v ssa.Value, self ssa.Value, d int) (Sym, bool) {
+	if d > 12 {
+		return Sym{}, false
+	}
+	v = x.res(v)
+	switch t := v.(type) {
+	case *ssa.Slice:
+		if t.Max != nil {
+			return Sym{}, false
+		}
+		lo := SymK(0)
+		if t.Low != nil {
+			lo = x.Sym(t.Low)
+		}
+		if t.High != nil {
+			return x.Sym(t.High).Sub(lo), true
+		}
+		if arr, ok := deref(t.X.Type()).Underlying().(*types.Array); ok {
+			if _, isPtr := t.X.Type().Underlying().(*types.Pointer); isPtr {
+				return SymK(arr.Len()).Sub(lo), true
+			}
+		}
+		base, ok := x.seqLen(t.X, nil, d+1)
+		if !ok {
+			return Sym{}, false
+		}
+		return base.Sub(lo), true
+	case *ssa.Convert:
+		if isByteSeq(t.X.Type()) && isByteSeq(t.Type()) {
+			return x.seqLen(t.X, nil, d+1)
+		}
+		return Sym{}, false
+	case *ssa.ChangeType:
+		return x.seqLen(t.X, nil, d+1)
+	case *ssa.MakeSlice:
+		return x.Sym(t.Len), true
+	case *ssa.Const:
+		if t.Value != nil && t.Value.Kind() == constant.String {
+			return SymK(int64(len(constant.StringVal(t.Value)))), true
+		}
+		if t.Value == nil {
+			return SymK(0), true
+		}
+		return Sym{}, false
+	case *ssa.UnOp:
+		if t.Op == token.MUL {
+			if _, _, isView := x.viewLoad(t); !isView {
+				if rep := x.forward(t); rep != ssa.Value(t) {
+					return x.seqLen(rep, nil, d+1)
+				}
+			}
+		}
+	}
+	if !isByteSeq(v.Type()) {
+		return Sym{}, false
+	}
+	if w, ok := x.windows[v]; ok {
+		return w.end.Sub(w.off), true
+	}
+	root, off, okr := x.bufRoot(v)
+	if !okr {
+		return Sym{}, false
+	}
+	if k, isK := off.Const(); !isK || k != 0 {
+		// a view cell: the input from the current cursor on
+		if ld, isLd := v.(*ssa.UnOp); isLd && ld.Op == token.MUL && x.isInput(root) {
+			if _, _, isView := x.viewLoad(ld); isView {
+				base, okb := x.seqLen(root, nil, d+1)
+				if okb {
+					return base.Sub(off), true
+				}
+			}
+		}
+		return Sym{}, false
+	}
+	if c, ok := x.lenCanon[root]; ok {
+		return SymT(c), true
+	}
+	if self == nil {
+		self = root
+	}
+	x.lenCanon[root] = self
+	return SymT(self), true
+}
+
+// isInputLen: t is the canonical length term of an input buffer.
+func (x *X) isInputLen(t ssa.Value) bool {
+	for root, c := range x.lenCanon {
+		if c == t && x.isInput(root) {
+			return true
+		}
+	}
+	return false
 }
 
 // forward returns the value a load is known to yield: prove's available-load
@@ -889,8 +1025,17 @@ func (x *X) bufRoot(v ssa.Value) (root ssa.Value, off Sym, ok bool) {
 		case *ssa.ChangeType:
 			v = t.X
 			continue
+		case *ssa.Extract, *ssa.Call:
+			if w, ok := x.windows[v]; ok {
+				if in := x.inputParam(); in != nil {
+					return in, off.Add(w.off), true
+				}
+			}
 		case *ssa.UnOp:
 			if t.Op == token.MUL {
+				if in, cur, ok := x.viewLoad(t); ok {
+					return in, off.Add(cur), true
+				}
 				rep := x.FI.LoadRep(t)
 				if rep != ssa.Value(t) {
 					v = rep
@@ -1018,14 +1163,21 @@ func (x *X) basePath(v ssa.Value) (string, bool) {
 		if _, ok := x.litOf(t); ok {
 			return "§", true
 		}
-		// a proper sub-slice is not the section itself (range s[1:] skips an element)
+		// a proper sub-slice is not the section itself (range s[1:] skips an
+		// element): it gets a path of its own, which equals no section's
 		if t.Low != nil {
 			if k, isK := constI(t.Low); !isK || k != 0 {
+				if bp, ok := x.basePath(t.X); ok && bp != "" {
+					return bp + "[" + x.exprString(t.Low, 0) + ":]", true
+				}
 				return "", false
 			}
 		}
 		if t.High != nil || t.Max != nil {
 			if _, isArr := deref(t.X.Type()).Underlying().(*types.Array); !isArr {
+				if bp, ok := x.basePath(t.X); ok && bp != "" && t.High != nil {
+					return bp + "[:" + x.exprString(t.High, 0) + "]", true
+				}
 				return "", false
 			}
 		}
